@@ -357,7 +357,16 @@ def run(scenario, tape_values):
             nursery.start_soon(factory_observer, world, name="observer")
         await env(world, nursery)
 
-    world.run(main)
+    try:
+        world.run(main)
+    except ScenarioInvalid:
+        if not getattr(world, "step_capped", False) or not (interval > 0):
+            raise
+        # a periodic service that takes step after step without ever letting (virtual) time pass:
+        # with a positive interval that is "more than one step per interval", whatever else it does
+        last = world.events[-1]["t"] if world.events else start
+        world.violate("C09/service-spins/%s" % kind, "the %s service (interval %r) performed hundreds of thousands of scheduling steps at t=%r without letting time pass" % (kind, interval, last))
+        return finish(world, ["C09-spin", kind, interval], True)
     rs = next((e for e in world.events if e["kind"] == "restart"), None)
     if rs is not None:
         # second life of the same service object: judged on its own, against its own start
